@@ -311,12 +311,14 @@ PROPS["C17"] = dict(
           "The hierarchy has four concrete classes, one derived from another. Handlers record their id, the addresses of the arguments they receive in order and the address of the undispatched extra argument. "
           "A dispatch must invoke exactly the handler the model holds for the tuple of dynamic types with exactly the caller's objects (swapped only under symmetric dispatch) and the extra argument itself, "
           "or - when never registered, erased, or only another permutation is registered - report an error and run no handler. "
+          "In functor-dispatcher runs a registration may meet an injected allocation failure (global operator new is replaced; 'the k-th allocation inside this insert fails'): "
+          "afterwards that tuple may dispatch to its previous handler, to the attempted one, or (if it had none) report an error, every other tuple must behave exactly as before, and later registrations must work. "
           "Non-trivial: at least two state-changing steps (registrations, erasures or successful dispatches). Distinct: distinct run digests."),
     probes=["dispatch_to_registered_tuple", "dispatch_to_unregistered_tuple", "only_other_permutation_registered", "registered_handler_erased", "handler_overwritten",
             "three_argument_dispatch", "symmetric_swap_taken", "static_dispatch_on_error", "static_dispatch_two_hierarchies", "visit_dispatched", "const_visit_dispatched", "catch_all_taken",
-            "derived_visited_by_visitor_of_base_only", "cyclic_visit_dispatched"],
+            "derived_visited_by_visitor_of_base_only", "cyclic_visit_dispatched", "registration_failed_with_bad_alloc", "dispatch_after_failed_registration"],
     components=dict(real=["include/xtl/xmultimethods.hpp (static_dispatcher, basic_dispatcher, basic_fast_dispatcher, functor_dispatcher, casters)", "include/xtl/xvisitor.hpp (acyclic and cyclic visitors, catch-all policies)"],
-                    stub=["recording handlers, executors and visitors", "model map from type tuple to handler id", "class hierarchy of four concrete classes"]),
+                    stub=["recording handlers, executors and visitors", "model map from type tuple to handler id", "class hierarchy of four concrete classes", "replaced global operator new/delete (allocation failure inside a registration)"]),
     assumptions=["every class of the hierarchy carries its own XTL_IMPLEMENT_INDEXABLE_CLASS / XTL_DEFINE_VISITABLE", "static_dispatcher type lists are ordered most-derived first",
                  "one fast dispatcher per hierarchy and run: the process-global class indices are reset through the public accessor at the start of every run",
                  "an error is any of on_error, the catch-all policy, std::runtime_error or std::bad_function_call"],
